@@ -684,6 +684,10 @@ PROPS["C10"] = dict(
           desc="the board of the position reached by State::by_performing_move answers colored_attacks / colored_pawn_attacks / is_check exactly as a "
           "board built from scratch from the successor's placement, whatever had been asked of (and cached in) the parent before the move",
           functions=["State::by_performing_move", "Board::{new,attack_map,colored_attacks,colored_pawn_attacks,is_check}"], timeout=3600, heavy=True, mem_gb=24),
+        K("c10", "c10_successor_answers_are_fresh_3", kind="bounded", bound="<= 3 pieces per kind and colour; spike attack function; every move class", tier="experimental",
+          unwindset_rules=[("from_occupancy", r"occupancy\.pop\(\)", 5, 0)],
+          desc="same as c10_successor_answers_are_fresh with up to three pieces per kind and colour",
+          functions=["State::by_performing_move", "Board::{new,attack_map,colored_attacks,colored_pawn_attacks,is_check}"], timeout=3600, heavy=True, mem_gb=24),
         K("c10", "c10_board_queries_contract", tier="thorough", heavy=True, kind="bounded", bound="<= 5 pieces per kind and colour; spike attack function", desc="colored_attacks / "
           "colored_pawn_attacks == from_occupancy of the board's fields; is_check through the real cached maps; answers independent of "
           "query order and of cloning before/after", functions=["Board::{attack_map,colored_attacks,colored_pawn_attacks,is_check,new,clone}"], timeout=1800),
@@ -801,6 +805,8 @@ PROPS["C15"] = dict(
         K("c15r", "c15_access_constructor_then_insert_and_find", kind="bounded", bound="<= 4 sub-tables", tier="experimental", desc="with_tables (verbatim) followed by insert and find: "
           "the constructed value routes by the full key to sub-table hash mod n", functions=["TranspositionTableAccess::with_tables", "TranspositionTableAccess::insert",
           "TranspositionTableAccess::find"], timeout=2400, heavy=True),
+        K("c15r", "c15_access_routes_by_key_32", kind="bounded", bound="<= 32 sub-tables", tier="experimental", desc="insert and find route by the full key to sub-table hash mod n for "
+          "every table count 1..=32", functions=["TranspositionTableAccess::insert", "TranspositionTableAccess::find"], timeout=3000, heavy=True),
         K("c15r", "c15_access_counts_are_sums", kind="bounded", bound="<= 8 sub-tables", desc="entries()/max_entries() are the sums of the sub-tables' answers, each "
           "sub-table counted once", functions=["TranspositionTableAccess::entries", "TranspositionTableAccess::max_entries"], timeout=1800),
         V("c15_table_find", ["TranspositionTable::find"], "Verus, Vec of any length: find(h) == view(h), reads only bucket h % len"),
